@@ -34,6 +34,7 @@
 #include <sys/wait.h>
 #include <time.h>
 #include <unistd.h>
+#include <fcntl.h>
 #include "TFEL/System/SystemError.hxx"
 #include "TFEL/System/ProcessManager.hxx"
 
@@ -204,6 +205,25 @@ static long run_command(tfel::system::ProcessManager& m, const CmdSpec& c, const
   return verdict;
 }
 
+// Diagnosis only, never a verdict by itself: the real code can deadlock (the SIGCHLD handler locks processesAccess in a
+// thread that already holds it).  If the scenario has not finished after 60 s, ask gdb for the stacks of all threads
+// (written to stderr) and leave with status 97.
+static void* watchdog(void*) {
+  timespec t{60, 0};
+  while (nanosleep(&t, &t) == -1 && errno == EINTR) {
+  }
+  const std::string pid = std::to_string(getpid());
+  const pid_t p = __real_fork();
+  if (p == 0) {
+    dup2(2, 1);
+    execlp("gdb", "gdb", "-q", "-batch", "-p", pid.c_str(), "-ex", "thread apply all bt 16", static_cast<char*>(nullptr));
+    _exit(127);
+  }
+  int st = 0;
+  if (p > 0) __real_waitpid(p, &st, 0);
+  _exit(97);
+}
+
 int main(int argc, char** argv) {
   if (argc >= 4 && std::string(argv[1]) == "--child") {
     timespec t{std::atol(argv[2]) / 1000, (std::atol(argv[2]) % 1000) * 1000000};
@@ -215,6 +235,14 @@ int main(int argc, char** argv) {
     _exit(99);
   }
   self = argv[0];
+  {
+    sigset_t all, old;
+    sigfillset(&all);
+    pthread_sigmask(SIG_BLOCK, &all, &old);  // the watchdog thread takes no signal
+    pthread_t th;
+    pthread_create(&th, nullptr, watchdog, nullptr);
+    pthread_sigmask(SIG_SETMASK, &old, nullptr);
+  }
   evlog = static_cast<Event*>(std::calloc(LOGMAX, sizeof(Event)));
   pmutex = processesAccess.native_handle();
   cmutex = callbacksAccess.native_handle();
